@@ -71,7 +71,7 @@ class _BaseDataContainer(ABC):
         except Exception as e:
             raise Exception(f"data array has invalid shape {data.shape}")
         self._attr[name] = ArrayAttribute(type(data[0,0].item()), n_elem, elem_size=elem_size, default_value=default_value)
-        self._attr[name]._data = data
+        self._attr[name]._data = data.astype(self._attr[name].type.dtype, copy=False) # storage in the attribute's type (no copy when it already is)
         return self._attr[name]
         
     def delete_attribute(self, name: str):
